@@ -115,7 +115,7 @@ Find(st, m, f, args) ==
 Obs0 == [skip |-> 0, acc |-> 1, ret |-> 0, thr |-> "", thrv |-> 0,
          reps |-> <<>>, repset |-> FALSE,   \* repset: compare reports as a set (order unspecified)
          oks |-> <<>>, trs |-> <<>>, trck |-> TRUE, \* trck: trace records are specified for this op
-         sr |-> <<>>, probe |-> <<>>,
+         sr |-> <<>>, probe |-> <<>>, hd |-> 0,   \* hd: the expectation that handled the call
          cargs |-> <<>>, cm |-> 0, cf |-> 0]     \* the call, for the clause-log rules
 Rp0 == [sev |-> 1, kind |-> "", ent |-> 0, fn |-> 0, args |-> <<>>, lo |-> 0, n |-> 0,
         lk |-> 0, lst |-> <<>>, det |-> <<>>, entset |-> {}, cnt |-> 1, cntmax |-> 1]
@@ -172,7 +172,7 @@ Accept(st, m, f, args, c) ==
                ELSE <<[t |-> st.trk[Len(st.trk)], ent |-> c, sh |-> x.sh, args |-> args, res |-> tres, resv |-> tresv]>>
       okent == IF AsIs_D4 THEN st.act[m][f][1] ELSE c
   IN  [st |-> st1,
-       obs |-> [Obs0 EXCEPT !.ret = ret, !.thr = thr, !.thrv = thrv, !.sr = sr, !.trs = trs,
+       obs |-> [Obs0 EXCEPT !.ret = ret, !.thr = thr, !.thrv = thrv, !.sr = sr, !.trs = trs, !.hd = c,
                             !.oks = <<[r |-> st.okrep, ent |-> okent]>>, !.cargs = args, !.cm = m, !.cf = f]]
 
 CallStep(st, m, f, args) ==
@@ -315,10 +315,8 @@ NotifyAll(st, ks, reps) ==
            nf   == {i \in 1..Len(x.qs) : ~IsFirst(st, x.qs[i], h)}               \* sequences where not first
            r    == IF viol = {} THEN <<>>
                    ELSE <<[Rp0 EXCEPT !.kind = "seqmismatch", !.ent = h, !.cnt = Cardinality(viol), !.cntmax = Cardinality(nf)]>>
-           lost == \E i \in 1..Len(x.qs) : IndexOf(st.pend[x.qs[i]], h) = 0       \* already passed somewhere
            pend1 == [q \in Seqs |-> IF q \in Range(x.qs) THEN RemoveH(DropBefore(st.pend[q], h), h) ELSE st.pend[q]]
-           st1  == [st EXCEPT !.mon[k].died = TRUE, !.mon[k].n = 1, !.pend = pend1,
-                              !.unspec = (@ \/ lost)]
+           st1  == [st EXCEPT !.mon[k].died = TRUE, !.mon[k].n = 1, !.pend = pend1]
        IN  NotifyAll(st1, Tail(ks), reps \o r)
 
 DestroyObjStep(st, o) ==
